@@ -92,3 +92,11 @@ package crypto
 //@   assert@call(SaveWith,0): $arg0 == pv && $arg1 == s                                                       [C20]
 //@   assert@call(GenSFilePV,0): $arg0 == keyFilePath && $arg1 == stateFilePath                                [C20]
 //@   assert@call(SaveWith,1): $arg0 == pv && $arg1 == s                                                       [C20]
+
+// ---- hashing: sha256 of the standard library, idealised as a collision-free function of its (single) input;
+// the application uses it as the ledger key of a genesis stake (C02/C12)
+//@ func DefaultHash(datas)
+//@   trusted
+//@   pure
+//@   ensures result != nil && len(result) == 32
+//@   ensures len(datas) == 1 ==> content(result) == sha256of(content(datas[0]))
